@@ -1311,6 +1311,7 @@ class CSym:
         self.stores = []       # (path, lvalue text, stored term) of every assignment, in program order
         self.path = []
         self.opaque_calls = set()
+        self.static_locals = {}    # name -> VarDecl of the block-scope objects of static storage duration met
 
     def lower(self, n, env):
         # env is mutated by side effects of the expression
@@ -1557,6 +1558,12 @@ class CSym:
             if k == "DeclStmt":
                 for d in kids(st):
                     if kind(d) != "VarDecl":
+                        continue
+                    if d.get("storageClass") == "static":
+                        # a block-scope object of static storage duration: the call does not execute its initialiser, it
+                        # holds what the previous call left there -- it stays the symbol `name` (a rule that judges the
+                        # first call substitutes the initial value itself, see kept_objects / cold_start)
+                        self.static_locals[d.get("name")] = d
                         continue
                     if d.get("init") and kids(d):
                         env[d.get("name")] = self.lower(kids(d)[-1], env)
